@@ -273,6 +273,58 @@ class SolverLayer:
                 if name in tabs:
                     sv.add_base(new)
 
+    def cvc5_fallback(self, constraints, cond, names):
+        """decide  /\ constraints /\ cond  with `cvc5 --solve-bv-as-int=sum`; returns (True, {name: value}) / (False, None),
+        or None if cvc5 is unavailable or does not give a clean answer (any '(error' line counts as inconclusive)"""
+        import subprocess, tempfile, os, re, shutil
+        exe = shutil.which("cvc5")
+        if exe is None:
+            return None
+        zs = z3.Solver()
+        for c in constraints:
+            zs.add(c)
+        if cond is not None:
+            zs.add(cond)
+        text = zs.to_smt2()
+        if "(check-sat)" not in text:
+            return None
+        names = [n for n in names if n in self.symobj and ("(declare-fun %s " % n) in text]
+        gv = "(get-value (%s))\n" % " ".join(names) if names else ""
+        text = "(set-option :produce-models true)\n(set-logic QF_BV)\n" + text.replace("(check-sat)", "(check-sat)\n" + gv)
+        fd, path = tempfile.mkstemp(suffix=".smt2", prefix="llsym-")
+        try:
+            with os.fdopen(fd, "w") as f:
+                f.write(text)
+            p = subprocess.run([exe, "--lang", "smt2", "--solve-bv-as-int=sum", "--tlimit=%d" % max(self.timeout_ms * 3, 60000), path],
+                               stdout=subprocess.PIPE, stderr=subprocess.STDOUT, text=True, timeout=max(self.timeout_ms * 3, 60000) / 1000 + 30)
+            out = p.stdout
+        except Exception:
+            return None
+        finally:
+            try:
+                os.unlink(path)
+            except OSError:
+                pass
+        lines = out.strip().splitlines()
+        if not lines:
+            return None
+        verdict = lines[0].strip()
+        if verdict == "unsat":
+            # the only complaint allowed after an unsat verdict is the one about the unconditional (get-value ...)
+            rest = [l for l in lines[1:] if "(error" in l]
+            if all("Cannot get value" in l for l in rest):
+                return (False, None)
+            return None
+        if verdict != "sat" or "(error" in out:
+            return None
+        part = {}
+        for m in re.finditer(r"\(\s*([A-Za-z0-9_]+)\s+(#b[01]+|#x[0-9a-fA-F]+|\(_ bv(\d+) \d+\))\s*\)", out):
+            v = m.group(2)
+            part[m.group(1)] = int(v[2:], 2) if v.startswith("#b") else int(v[2:], 16) if v.startswith("#x") else int(m.group(3))
+        if any(n not in part for n in names):
+            return None
+        return (True, part)
+
     # ---------------------------------------------------------------- queries
     def check(self, st, cond):
         """Is pc(st) /\\ cond satisfiable?  Returns a model dict (name->int) for all symbols of st, or None.
@@ -331,7 +383,32 @@ class SolverLayer:
         stats["qtime"] += dt
         stats["heavy_t" if tab else "light_t"] += dt
         if r == z3.unknown:
-            raise Inconclusive("solver returned unknown: %s" % sv.s.reason_unknown())
+            why = sv.s.reason_unknown()
+            fb = None
+            if not tab:
+                # second opinion for arithmetic-heavy, table-free queries (64-bit multiply/divide by constants stall
+                # z3's bit-blaster): cvc5 with its integer encoding of bit-vectors
+                keep = set(csyms)
+                for g in nodes:
+                    keep |= self.node_syms[g]
+                if cond is None:
+                    keep = set(n for n, _ in st.syms)
+                fb = self.cvc5_fallback(st.lpc, cond, sorted(keep))
+            if fb is None:
+                raise Inconclusive("solver returned unknown: %s" % why)
+            stats["cvc5_fallback"] = stats.get("cvc5_fallback", 0) + 1
+            ok, part = fb
+            if not ok:
+                stats["unsat"] += 1
+                if cond is not None:
+                    self.qcache[key] = (False, None)
+                return None
+            stats["sat"] += 1
+            if cond is not None:
+                self.qcache[key] = (True, part)
+            model = dict(st.model) if st.model else {}
+            model.update(part)
+            return model
         if self.dump is not None and cond is not None:
             self.dump.append((st.pc if tab else st.lpc, cond, r == z3.sat, bool(tab)))
         if r == z3.unsat:
